@@ -5,7 +5,7 @@ import json, os, shutil, sys
 pid, n, status = sys.argv[1], sys.argv[2], sys.argv[3]
 observed = " ".join(sys.argv[4:])
 src = "/tmp/wt-%s/seeded/%s" % (pid.lower(), n)
-dst = "/verif/seeded/%s-%s" % (pid, n)
+dst = "/verif/seeded/%s-%s" % (pid, os.environ.get("DST_N", n))  # DST_N: number in /verif/seeded when it differs (second round)
 os.makedirs(dst, exist_ok=True)
 for f in os.listdir(src):
     if os.path.isfile(os.path.join(src, f)) and os.path.getsize(os.path.join(src, f)) < 2000000:
